@@ -155,18 +155,32 @@ class Obligation:
         self.model = None
 
 
+_HQ_CACHE: dict = {}
+
+
 def has_quantifier(e) -> bool:
+    """Memoised per top-level constraint (path conditions are re-examined at every feasibility check; the id is kept
+    alive by the reference stored next to the answer)."""
+    k = e.get_id()
+    hit = _HQ_CACHE.get(k)
+    if hit is not None and hit[0].eq(e):
+        return hit[1]
     seen = set()
     stack = [e]
+    r = False
     while stack:
         x = stack.pop()
         if x.get_id() in seen:
             continue
         seen.add(x.get_id())
         if z3.is_quantifier(x):
-            return True
+            r = True
+            break
         stack.extend(x.children())
-    return False
+    if len(_HQ_CACHE) > 200000:
+        _HQ_CACHE.clear()
+    _HQ_CACHE[k] = (e, r)
+    return r
 
 
 class EngineBase:
